@@ -1271,20 +1271,10 @@ fn execute_multi_thread_files(stdout: io::Stdout, args: &Opts) {
 	let results = results.into_iter()
 		.map(|(path, contents)| (path, format_output(args, contents)))
 		.collect::<Vec<_>>();
+	make_backups(args);
 	for (path, output) in results {
 
 		if args.edit_inplace {
-			if args.backup_files {
-				let extension = args.backup_extension.as_deref().unwrap_or("bak");
-				let backup_path = path.with_extension(format!(
-						"{}.{extension}",
-						path.extension()
-						.and_then(|ext| ext.to_str())
-						.unwrap_or("")
-				));
-
-				fs::copy(&path, &backup_path).unwrap_or_else(complain_and_exit);
-			}
 			fs::write(&path, output).unwrap_or_else(complain_and_exit);
 		} else if args.files.len() > 1 {
 			if !output.is_empty() {
@@ -1293,6 +1283,26 @@ fn execute_multi_thread_files(stdout: io::Stdout, args: &Opts) {
 		} else {
 			write!(stdout, "{output}").ok();
 		}
+	}
+}
+
+/// Back up every file of an in-place run that asked for backups
+///
+/// All of them before any file is rewritten: a file that cannot be backed up then leaves the others as they were.
+fn make_backups(args: &Opts) {
+	if !(args.edit_inplace && args.backup_files) {
+		return
+	}
+	for path in &args.files {
+		let extension = args.backup_extension.as_deref().unwrap_or("bak");
+		let backup_path = path.with_extension(format!(
+				"{}.{extension}",
+				path.extension()
+				.and_then(|ext| ext.to_str())
+				.unwrap_or("")
+		));
+
+		fs::copy(path, &backup_path).unwrap_or_else(complain_and_exit);
 	}
 }
 
@@ -1362,6 +1372,7 @@ fn execute_multi_thread_files_linewise(stdout: io::Stdout, args: &Opts) {
 		write!(stdout, "{json}").ok();
 		return
 	}
+	make_backups(args);
 	// Write back to file, in the order the files were given (a file without lines has no entry)
 	for path in &args.files {
 		let mut lines = per_file.remove(path).unwrap_or_default();
@@ -1372,17 +1383,6 @@ fn execute_multi_thread_files_linewise(stdout: io::Stdout, args: &Opts) {
 			.join("");
 
 		if args.edit_inplace {
-			if args.backup_files {
-				let extension = args.backup_extension.as_deref().unwrap_or("bak");
-				let backup_path = path.with_extension(format!(
-						"{}.{extension}",
-						path.extension()
-						.and_then(|ext| ext.to_str())
-						.unwrap_or("")
-				));
-
-				fs::copy(&path, &backup_path).unwrap_or_else(complain_and_exit);
-			}
 			fs::write(&path, output_final).unwrap_or_else(complain_and_exit);
 		} else if args.files.len() > 1 {
 			if !output_final.is_empty() {
